@@ -1004,8 +1004,9 @@ impl fmt::Display for PreExp {
                 }
             }
             Self::Variable(name) => {
-                if name.contains('_') {
-                    //in case this is a escaped variable
+                //leading underscores are part of a simple variable (`_x`), only an
+                //inner underscore means this is an escaped compound variable (`\\x_1`)
+                if name.trim_start_matches('$').trim_start_matches('_').contains('_') {
                     format!("\\{}", **name)
                 } else {
                     name.to_string()
